@@ -234,7 +234,10 @@ pub fn run(desc: &Value, ctx: &Ctx) -> CaseOut {
                     all.extend_from_slice(&body);
                     std::fs::write(&path, &all).unwrap();
                     let scn = if name.starts_with("random") { "prefix-random" } else if name == "text" { "prefix-text" } else { "prefix-fake-header" };
-                    let plan = plan_for(case, Some(created));
+                    let mut plan = plan_for(case, Some(created));
+                    // (tools::open_pack opens pack and container files, not containers embedded after a prefix: neither the
+                    // file-level check nor the manifest's records are asked for here)
+                    plan.manifest_free = false;
                     let mut got = dump_container(&path, &plan);
                     got.retain(|k, _| !k.starts_with("check/file/"));
                     let exp = expected_dump(case, created, &plan);
